@@ -65,6 +65,12 @@ theorem delall_keeps_allocator (s : Store) :
     (Store.step .delAllGraphs s).2.nodes = [] ∧ (Store.step .delAllGraphs s).2.edges = [] ∧
     (Store.step .delAllGraphs s).2.nextId = s.nextId := ⟨rfl, rfl, rfl⟩
 
+/-- the control-flow facts observed on the code by `gen/storeflow.py` (where imports take their internal ids from, how
+    the allocators move, what `del_graph` / `del_all_graphs` do to them, when the disjoint store regards an id as
+    present, which lookups filter on `GraphID`) are the ones `Model/Store.lean` / `Model/DStore.lean` mirror -/
+theorem flow_is_modelled :
+    Gen.StoreFlow.flow = Store.modelFlow ∧ Gen.StoreFlow.gidFiltered = Store.modelFiltered := by decide
+
 /-! ## shared store: frame -/
 
 /-- **frame (general).**  Whatever the operation — `GraphID` rewrites, direct imports of nodes that carry
@@ -368,7 +374,8 @@ theorem dframe (op : Op) (d : DStore.DStore) (g' : String) (hne : g' ≠ op.targ
 theorem ddelall_keeps_counters (d : DStore.DStore) (g : String) :
     (DStore.sub (DStore.step .delAllGraphs d).2 g).nodes = [] ∧
     (DStore.sub (DStore.step .delAllGraphs d).2 g).nextId = (DStore.sub d g).nextId := by
-  simp only [DStore.step, DStore.delAllGraphs, DStore.sub_delAll, true_and]
+  have hf : Gen.StoreFlow.flow.disjointDelAllKeepsCounters = true := rfl
+  simp only [DStore.step, DStore.delAllGraphs, hf, if_true, DStore.sub_delAll, true_and]
   unfold DStore.sub
   split <;> rfl
 
